@@ -267,12 +267,15 @@ def run(ctx):
             ctx.oblige("C13|skip|only-inner-error", good_try, "skip_if_too_long has error exits other than decoding the text itself", cfg=cfg, where=fn["sp"])
             kept = dropped = None
             others = []
+            prechecks = []
             CONV = "<heapless::string::String<L> as core::convert::TryFrom<&str>>"
             PUSH = "heapless::string::String::<N>::push_str"
             fits_test = None   # the expression whose Ok/Err decides fit vs too long
             for s_ in A.sites:
                 mc = [c for c in s_.conds if c.kind == "match"]
-                sc = H.strip_block(A.subst(mc[0].scrut)) if len(mc) == 1 and len(s_.conds) == 1 else {}
+                extra = [c for c in s_.conds if c.kind != "match"]
+                extra_ok = all((A.comparison(c) or ("", "", ""))[1] in ("<=", "<") and (A.comparison(c) or ("", "", ""))[2].endswith("::L") for c in extra)
+                sc = H.strip_block(A.subst(mc[0].scrut)) if len(mc) == 1 and extra_ok else {}
                 pc = H.pat_ctor(mc[0].pat) if mc else None
                 form = None
                 fresh_id = None
@@ -292,6 +295,16 @@ def run(ctx):
                 elif form and (pc == "core::result::Result::Err" or H.pat_is_catchall(mc[0].pat)) and s_.wrappers == [OK] and H.ctor(H.strip_block(s_.node)) == "core::option::Option::None":
                     dropped = s_
                 else:
+                    # an explicit length pre-check: accepted iff it drops exactly the texts that do not fit (len > L)
+                    t = A.comparison(s_.conds[0]) if len(s_.conds) == 1 else None
+                    LENS = ("core::str::<impl str>::len(try(serde_core::de::Deserialize::deserialize(param:deserializer)))",)
+                    if t and t[0] in LENS and s_.wrappers == [OK] and H.ctor(H.strip_block(s_.node)) == "core::option::Option::None" and t[2].endswith("::L"):
+                        if t[1] == ">":
+                            prechecks.append(s_)
+                            continue
+                        ctx.oblige("C13|skip|precheck-boundary", False,
+                                   "the length pre-check drops the icon when len %s L: an icon of exactly L bytes (which fits) is reported absent" % t[1], cfg=cfg, where=H.line(s_.node))
+                        continue
                     others.append(s_)
             # the conversion must be genuinely fallible: core's blanket `impl<T, U: Into<T>> TryFrom<U> for T` is infallible
             # (Error = Infallible) and forwards to From::from, which for heapless 0.7 String *panics* when the text does not fit
